@@ -467,7 +467,7 @@ func genCase(t *rapid.T) Case {
 	return c
 }
 
-var prop = &ev.Prop[Case]{Sub: "signverify", Quick: 12000, Thorough: 600000, Gen: genCase, Check: check}
+var prop = &ev.Prop[Case]{Sub: "signverify", Quick: 80000, Thorough: 600000, Gen: genCase, Check: check}
 
 func TestRegress(t *testing.T) { prop.Regress(t) }
 func TestReplay(t *testing.T)  { prop.Replay(t) }
